@@ -17,6 +17,8 @@ type c17Case struct {
 	Host   string `json:"host"` // Title Version BaseUrl Query Path Method
 	Value  string `json:"value"`
 	Quoted bool   `json:"quoted"`
+	// Sep: what follows the parameter on its line (blanks, a comment).
+	Sep string `json:"sep,omitempty"`
 }
 
 func c17Quote(v string) string {
@@ -85,7 +87,10 @@ func c17Check(c c17Case, info *vlib.Info) *vlib.Failure {
 	if c.Host == "Path" || c.Host == "URL" {
 		info.NonTrivial = strings.ContainsAny(c.Value, "\\\"#/*@[ \t")
 	}
-	src, path := c17Doc(c.Host, param, value)
+	src, path := c17Doc(c.Host, param+c.Sep, value)
+	if c.Sep != "" {
+		info.Class("separator-after-parameter")
+	}
 	res := vlib.Run(vlib.Single(src))
 	if res.Panic != "" {
 		return vlib.Failf("panic", "%q panics: %s", src, res.Panic)
@@ -195,12 +200,18 @@ func TestC17(t *testing.T) {
 		eachString(alpha, maxLen, func(int) bool { return true }, func(v string) bool {
 			for _, host := range hosts {
 				for _, q := range []bool{true, false} {
-					if h.Mine(idx) {
-						if !yield(c17Case{Host: host, Value: v, Quoted: q}) {
-							return false
-						}
+					seps := []string{""}
+					if len(v) <= 2 {
+						seps = []string{"", " ", "\t", "\t# c"}
 					}
-					idx++
+					for _, sep := range seps {
+						if h.Mine(idx) {
+							if !yield(c17Case{Host: host, Value: v, Quoted: q, Sep: sep}) {
+								return false
+							}
+						}
+						idx++
+					}
 				}
 			}
 			return true
@@ -221,7 +232,8 @@ func TestC17(t *testing.T) {
 		if !utf8.ValidString(v) {
 			v = "a"
 		}
-		return c17Case{Host: host, Value: v, Quoted: rapid.IntRange(0, 3).Draw(t, "q") > 0}
+		return c17Case{Host: host, Value: v, Quoted: rapid.IntRange(0, 3).Draw(t, "q") > 0,
+			Sep: rapid.SampledFrom([]string{"", "", " ", "\t", "\t ", " \t", " # c", "\t# c", "  "}).Draw(t, "sep")}
 	}, c17Check)
 
 	vlib.Enum(h, "negative-quoting", true, func(yield func(c17Neg) bool) {
